@@ -5,9 +5,10 @@ Character level of an SWC file for C07: how `_write_swc` assembles the text (`fi
 it treats as header / comment / blank / data, and the integer printer / lexer pair used for the id columns.
 Core Lean only, total, computable.
 
-* `terminate` is the `elif not header.endswith("\n"): header += "\n"` branch of `_write_swc` for a user supplied
-  `header=` string; whether that branch exists in the current source is the translator fact
-  `Gen.Swc.headerTerminated` (`translator/gen_swc.py`).  A custom header is written *verbatim* (navis adds no `#`).
+* `commentise` is what `_write_swc` does to the lines of a user supplied `header=` string (a line that is neither a `#` line
+  nor blank gets `Gen.Swc.headerCommentPrefix` = `"# "` in front; before the fix `write_swc turns lines of a custom header … into
+  comments` the string was written verbatim), `terminate` is the `if not header.endswith("\n"): header += "\n"` that follows;
+  whether these exist in the current source are the translator facts `Gen.Swc.headerCommentPrefix` / `Gen.Swc.headerTerminated`.
 * `assemble` is the whole text: terminated header, then every row followed by the line terminator of `csv.writer`
   (`Gen.Swc.writeLineTerminator`, by default `\r\n`).
 * `lines` = `text.split("\n")` without the final empty piece (what `for line in f` / pandas see, `\r` kept).
@@ -50,6 +51,36 @@ def lexInt? (cs : List Char) : Option Int :=
 
 /-! ### assembling the text -/
 
+/-- `line.startswith("#")` -/
+def isHdr (l : List Char) : Bool := l.head? == some '#'
+
+/-- empty up to carriage returns: skipped by `read_csv` (`not line.strip("\r")` in `_write_swc`) -/
+def isBlank (l : List Char) : Bool := l.all (· == '\r')
+
+/-- `header.split("\n")`: the pieces between line breaks (always at least one, the last one may be empty). -/
+def splitAll : List Char → List (List Char)
+  | [] => [[]]
+  | c :: cs =>
+    if c = '\n' then [] :: splitAll cs
+    else match splitAll cs with
+      | p :: ps => (c :: p) :: ps
+      | [] => [[c]]
+
+/-- `"\n".join(pieces)` -/
+def joinNl : List (List Char) → List Char
+  | [] => []
+  | [p] => p
+  | p :: q :: ps => p ++ '\n' :: joinNl (q :: ps)
+
+/-- One line of a user supplied header as `_write_swc` writes it: kept when it is a comment or blank, otherwise the prefix
+(translator fact `Gen.Swc.headerCommentPrefix`, `"# "`) is put in front. -/
+def commentLine (pre : List Char) (l : List Char) : List Char := if isHdr l || isBlank l then l else pre ++ l
+
+/-- `"\n".join(line if (line.startswith(COMMENT) or not line.strip("\r")) else f"{COMMENT} {line}" for line in header.split("\n"))` -/
+def commentiseWith (pre : List Char) (h : List Char) : List Char := joinNl ((splitAll h).map (commentLine pre))
+
+def commentise (h : List Char) : List Char := commentiseWith Gen.Swc.headerCommentPrefix.toList h
+
 def endsWithNl (h : List Char) : Bool := h.getLast? == some '\n'
 
 /-- `elif not header.endswith("\n"): header += "\n"` — present in the source iff `Gen.Swc.headerTerminated`. -/
@@ -67,8 +98,12 @@ def rowsText (pre : List Char) : List (List Char) → List Char
   | [] => []
   | r :: rs => r ++ pre ++ '\n' :: rowsText pre rs
 
+/-- The header text `_write_swc` writes for a user supplied `header=h`: non-comment lines turned into comments, then a final
+line break if there is none. -/
+def headerText (h : List Char) : List Char := terminate (commentise h)
+
 /-- The text `_write_swc` writes for a custom header `h` and rendered rows `rows`. -/
-def assemble (h : List Char) (rows : List (List Char)) : List Char := terminate h ++ rowsText eolPre rows
+def assemble (h : List Char) (rows : List (List Char)) : List Char := headerText h ++ rowsText eolPre rows
 
 /-- The same without the newline-termination branch (what the file would be if the branch were missing). -/
 def assembleRaw (h : List Char) (rows : List (List Char)) : List Char := h ++ rowsText eolPre rows
@@ -81,12 +116,6 @@ def linesAux : List Char → List Char → List (List Char)
 
 /-- `text.split("\n")` without the final empty piece. -/
 def lines (cs : List Char) : List (List Char) := linesAux [] cs
-
-/-- `line.startswith("#")` -/
-def isHdr (l : List Char) : Bool := l.head? == some '#'
-
-/-- empty up to carriage returns: skipped by `read_csv` -/
-def isBlank (l : List Char) : Bool := l.all (· == '\r')
 
 /-- `read_header_rows`: the leading `#` lines. -/
 def hdrRows (ls : List (List Char)) : List (List Char) := ls.takeWhile isHdr
